@@ -234,8 +234,10 @@ def run_property(prop, tier, seed, jobs):
         "assumptions": meta.get("assumptions", []),
         "wall_s": round(time.time() - t0, 2), "violations": len(violations),
     }
-    os.makedirs(os.path.join(VERIF, "evidence"), exist_ok=True)
-    json.dump(ev, open(os.path.join(VERIF, "evidence", f"{prop}.json"), "w"), indent=1, default=str)
+    # evidence describes /repo; a run on another tree (TVERIF_REPO: seeded-change evaluation) writes to out/ instead
+    evdir = os.path.join(VERIF, "evidence") if REPO == "/repo" else os.path.join(VERIF, "out", "evidence_other_tree")
+    os.makedirs(evdir, exist_ok=True)
+    json.dump(ev, open(os.path.join(evdir, f"{prop}.json"), "w"), indent=1, default=str)
     print(f"{prop} [{tier}] contracts={len(cids)} structures={len(tasks)} obligations={n_obl} discharged={n_dis} failed={len(failed)} "
           f"undecided={len(undecided)} native_runs={native_runs} native_checks={native_checked} native_failed={len(native_failed)} functions={len(touched)} "
           f"solver_calls={solver_calls} solver_time={solver_time:.1f}s wall={time.time() - t0:.1f}s")
